@@ -9,11 +9,15 @@ mod corpus;
 mod props;
 mod rng;
 mod runner;
+mod spy;
 mod suites;
 mod tiny;
 mod util;
 
 use runner::{Prop, Tier};
+
+#[global_allocator]
+static GLOBAL: spy::Spy = spy::Spy;
 
 fn selftest() -> i32 {
     let mut n = 0;
